@@ -439,3 +439,27 @@ Proof.
     assert (2 ^ 28 < 2 ^ 64)%N by (apply N.pow_lt_mono_r; lia). unfold bytes in *. lia. }
   unfold lenN in *. unfold bytes in *. change (2 ^ 32)%N with 4294967296%N in Hh. change (2 ^ 64)%N with 18446744073709551616%N. lia.
 Qed.
+
+(* ---- sanity of the specification: on 2^k leaves it is the plain perfect Merkle tree ------------------------------ *)
+Lemma depth_below_pow2 k : depth_below (2 ^ S k) = k.
+Proof.
+  unfold depth_below. rewrite Nat2N.inj_pow. change (N.of_nat 2) with 2%N.
+  rewrite <- N.pred_sub, N.log2_pred_pow2 by lia. lia.
+Qed.
+
+Lemma tree_spec_pow2 hc k l : length l = (2 ^ k)%nat -> tree_spec hc l = perfect hc k l.
+Proof.
+  intros Hl. destruct k as [|[|k]].
+  - destruct l as [|a [|? ?]]; try discriminate Hl. reflexivity.
+  - destruct l as [|a [|b [|? ?]]]; try discriminate Hl. reflexivity.
+  - assert (E : (2 ^ S (S k) = 2 * 2 ^ S k)%nat) by apply Nat.pow_succ_r'.
+    assert (E' : (2 ^ S k = 2 * 2 ^ k)%nat) by apply Nat.pow_succ_r'.
+    pose proof (pow2_pos k) as Hp.
+    destruct l as [|x [|y [|z t]]]; cbn [length] in Hl; try lia.
+    unfold tree_spec. cbv beta iota. remember (x :: y :: z :: t) as l eqn:Hel.
+    assert (Hl' : length l = (2 ^ S (S k))%nat) by (subst l; exact Hl).
+    rewrite Hl', depth_below_pow2. rewrite <- E, Nat.sub_diag.
+    cbn [firstn skipn app].
+    rewrite <- (reduce_perfect hc (S k)) by (apply pairs_length; lia).
+    rewrite <- (reduce_perfect hc (S (S k))) by exact Hl'. reflexivity.
+Qed.
